@@ -48,6 +48,31 @@ def _model_inputs(c, m):
     return {name: jsonable(model_value(m, v)) for name, v in c.inputs.items()}
 
 
+def _model_ok(c, m):
+    try:
+        return all(z3.is_true(m.eval(a, model_completion=True)) for a in c.solver.assertions())
+    except z3.Z3Exception:
+        return False
+
+
+def _valid_model(c):
+    """the model of the path condition, CHECKED against every assertion: a model that came out of a retry solver (tactic pipeline, other
+    seed) after an `unknown` is not trusted blindly - inputs taken from an invalid model made concolic replays disagree (seen once, under
+    heavy machine load).  On failure the path condition is solved once more from scratch; None if that does not give a valid model."""
+    m = c.model()
+    if c.msolver is c.solver or _model_ok(c, m):
+        return m
+    s2 = z3.Solver()
+    s2.set('timeout', int(c.opts.get('timeout_ms', 120000)))
+    s2.add(c.solver.assertions())
+    if str(s2.check()) == 'sat':
+        m = s2.model()
+        if _model_ok(c, m):
+            c.msolver = s2
+            return m
+    return None
+
+
 def run_path(kernel, params, prefix, vals, opts, trace=False):
     """one execution.  returns dict with the path's outcome"""
     c = Ctx(prefix, vals, opts)
@@ -112,7 +137,11 @@ def run_path(kernel, params, prefix, vals, opts, trace=False):
                 res['status'] = 'oom'
                 res['oom'] = 'path condition unknown'
             return res, c
-        m0 = c.model()
+        m0 = _valid_model(c)
+        if m0 is None:
+            res['status'] = 'oom'
+            res['oom'] = 'no model that satisfies the path condition could be obtained (solver retry under load)'
+            return res, c
         inputs0 = _model_inputs(c, m0)
         if exc_info is not None:
             res['cex'].append(dict(label='exception:' + exc_info[0], inputs=inputs0, detail=exc_info[1], tb=exc_info[2]))
